@@ -1561,6 +1561,42 @@ def replica_cases(run, exe, r, d, ncases):
             run.violation(bad[0], bad[1], dict(rp, step=bad[2]))
 
 
+def keep_witness(run, exe, d):
+    """keepHills switched on between two runs, then rebinGrids: the first run (keepHills off) leaves three hills at 10.5 in the
+    grids only; the second (keepHills on) adds two at 5.5; the third rebins onto [2,18).  Rebinning must change nothing:
+    the energy at 10.5 is that of all five hills at the centre of its bin (outside the model: oracle only)"""
+    c = _cfg("w_keep_on", [_var(nx=20)], [[10.5], [10.5], [10.5], [10.5]])
+    c2 = dict(c, keep=True)
+    first, natoms = atoms_of(c)
+    L = scenario_text(c, False).split("\n")
+    L = [l for l in L if l and l != "metatraj m"]
+    L += ["save text c05k1.state", "new"] + config_text(c2) + ["load c05k1.state"]
+    for z in (10.5, 5.5, 5.5, 4.5):
+        L += ["pos 1 0 0 %s" % V.hexf(z), "step", "metadump m 0"]
+    L += ["save text c05k2.state", "new"] + config_text(c2, [(16, 2.0, 18.0)], True) + ["load c05k2.state"]
+    for z in (4.5, 10.5, 1.5):
+        L += ["pos 1 0 0 %s" % V.hexf(z), "step", "metadump m 0"]
+    txt = "\n".join(L) + "\n"
+    sc = os.path.join(d, "keep_on.scn")
+    open(sc, "w").write(txt)
+    rcv, o, ev = V.sh([exe, sc], cwd=d, timeout=120)
+    os.remove(sc)
+    en = [fh(l.split()[1]) for l in o.split("\n") if l.startswith("MENERGY")]
+    ok = rcv == 0 and len(en) == 11 and o.count("LOAD err=ok") == 2
+    run.count("w_keep_on", ok)
+    if not ok:
+        run.violation("crash", "keepHills switched on between runs, then rebinGrids: failed (rc=%d, %d energies)" % (rcv, len(en)), {"kind": "scenario", "scenario": txt})
+        return
+    sg = [1.0]
+    hills = [(1, 1.0, [[10.5]], sg), (2, 1.0, [[10.5]], sg), (3, 1.0, [[10.5]], sg), (4, 1.0, [[5.5]], sg), (5, 1.0, [[5.5]], sg), (6, 1.0, [[4.5]], sg)]
+    # third run: first step at 4.5 (step 6, no hill), then 10.5 at step 7 (a hill there, pending), then 1.5 (off the new grid)
+    exp_on = esum(c, [[10.5]], hills) + 1.0
+    if not close(en[9], exp_on):
+        run.violation("keepHills:switched-on-then-rebin-loses-hills",
+                      "keepHills off for steps 0-3 (three hills at 10.5), on from step 3 (hills at 5.5, 5.5, 4.5), rebinGrids onto [2,18) at step 6: "
+                      "energy at 10.5 at step 7 is %r, the hills deposited give %r" % (en[9], exp_on), {"kind": "scenario", "scenario": txt})
+
+
 def setup():
     V.extract_model("C05", EXTRACT, DRIVER, ["ocaml/fops.ml"])
     V.build_prog("c05sim", PROGS["c05sim"])
@@ -1620,6 +1656,7 @@ def check(run):
             nsample += 1
             run.sample({"scenario": txt.split("\n")[:45], "last_step": {k: impl[-1].get(k) for k in ("it", "E", "F", "nhills", "nnew", "noff", "geom")}})
     reload_witness(run, exe, d)
+    keep_witness(run, exe, d)
     replica_cases(run, exe, r, d, 8 if quick else 200)
     run.cov["correspondence"].update({"scenarios": len(cs)})
 
